@@ -341,6 +341,48 @@ def r02_2(prog, rep):
         rep.ok(rid, "make_evfilt/primes-pending", mk.loc(), "pending exception = range of the first event popped from the exception stream")
     else:
         rep.fail(rid, "make_evfilt/primes-pending", mk.loc(), "make_evfilt does not prime the pending exception from the exception stream")
+    # ... and the step function advances it to exactly the exception it has just popped: every definition that reaches a store to
+    # the pending exception is echs_event_range(<popped event>) (a second, conditional source — "treat a repeated instant as the end
+    # of the exceptions" — silently drops every later EXDATE)
+    nf = prog.fn("next_evfilt", "evfilt.c")
+    ncfg = nf.cfg
+
+    def sources(name, depth=0):
+        out = set()
+        for b_, i_, x_, ln_ in ncfg.all_elems():
+            for l_, kind_, n_ in writes(x_):
+                if lv(l_) != name:
+                    continue
+                rhs = n_.get("init") if kind_ == "decl" else (n_.get("r") if n_.get("k") == "bin" and n_["op"] == "=" else None)
+                if rhs is None:
+                    continue
+                r_ = strip_casts(ncfg.resolve(rhs))
+                if r_.get("k") == "ref" and r_.get("dk") == "local" and depth < 4:
+                    out |= sources(r_["n"], depth + 1)
+                elif r_.get("k") == "call":
+                    a0 = strip_casts(ncfg.resolve(r_["a"][0])) if r_.get("a") else {}
+                    inner = a0.get("fn") if a0.get("k") == "call" else (",".join(sorted(sources(a0["n"], depth + 1))) if a0.get("k") == "ref" and a0.get("dk") == "local" else show(a0))
+                    out.add("%s(%s)" % (r_.get("fn"), inner))
+                else:
+                    out.add(show(r_)[:40])
+        return out
+    stores = 0
+    for b_, i_, x_, ln_ in ncfg.all_elems():
+        for l_, kind_, n_ in writes(x_):
+            if lv(l_).endswith("->" + pf) and n_.get("k") == "bin" and n_["op"] == "=":
+                stores += 1
+                r_ = strip_casts(ncfg.resolve(n_["r"]))
+                src = sources(r_["n"]) if r_.get("k") == "ref" and r_.get("dk") == "local" else sources("\0") | (
+                    {"%s(%s)" % (r_.get("fn"), ",".join(sorted(sources(strip_casts(ncfg.resolve(r_["a"][0]))["n"]))) if strip_casts(ncfg.resolve(r_["a"][0])).get("k") == "ref" else (strip_casts(ncfg.resolve(r_["a"][0])).get("fn") or "?"))}
+                    if r_.get("k") == "call" and r_.get("a") else {show(r_)[:40]})
+                key = "next_evfilt/advances-to-popped-exception#%d" % stores
+                if src and all(s_.startswith("echs_event_range(") and "echs_evstrm_pop" in s_ for s_ in src):
+                    rep.ok(rid, key, nf.loc(n_.get("line", ln_)), "the pending exception becomes the range of the exception just popped")
+                else:
+                    rep.fail(rid, key, nf.loc(n_.get("line", ln_)), "the pending exception is also set from %s, not only from the exception just popped: later "
+                             "EXDATE/EXRULE instances are dropped" % sorted(src))
+    if not stores:
+        raise AnalysisBroken("next_evfilt never stores the pending exception")
     cl = prog.fn("clone_evfilt", "evfilt.c")
     copied = set()
     for b, i, x, line in cl.cfg.all_elems():
@@ -461,6 +503,8 @@ def run(prog, rep, tier, snap):
     rep.rule("R02.3", "exceptions are consumed outside the step function only for priming or strictly before the occurrence", 1)
     rep.call(r02_3, prog, rep)
     from . import c03
+    rep.rule("R03.2", "merge step of the mux that joins RRULE and RDATE (resp. EXRULE and EXDATE) streams (shared with C03)", 9)
+    rep.call(c03.r03_2, prog, rep)
     rep.rule("R03.5", "NULL-terminated stream lists: every argument in front of the terminator is non-NULL (shared with C03)", 4)
     rep.call(c03.r03_5, prog, rep)
 READY = True
